@@ -60,8 +60,9 @@ class View:
             if st not in (1, -1):
                 raise ValueError('step %r' % (st,))
             if st == 1:
-                lo_ = K(0) if lo is None else (K(lo) if lo >= 0 else ln + K(lo))
-                hi_ = ln if hi is None else (K(hi) if hi >= 0 else ln + K(hi))
+                # a bound may already be a linear form (absolute position, resolved by the caller from a symbolic expression)
+                lo_ = K(0) if lo is None else (lo if isinstance(lo, Lin) else (K(lo) if lo >= 0 else ln + K(lo)))
+                hi_ = ln if hi is None else (hi if isinstance(hi, Lin) else (K(hi) if hi >= 0 else ln + K(hi)))
                 nl = hi_ - lo_
                 # out index t -> in index lo_ + t
                 out_axes.append((src, sc, off + lo_.scale(sc)))
